@@ -294,13 +294,21 @@ static bool setup(Ctx &t)
     if(!I.dev) { c.violation("oracle:C20:init-failed", vfmt("opn2_init(%ld) returned NULL", x.rate)); return false; }
     I.rate = x.rate; I.c = &c;
     int rc = 0;
-    API("opn2_setNumChips", rc = opn2_setNumChips(I.dev, x.chips));
-    if(rc != 0) { c.violation("oracle:C20:setup-rejected:opn2_setNumChips", vfmt("%d -> %d", x.chips, rc)); return false; }
-    API("opn2_switchEmulator", rc = opn2_switchEmulator(I.dev, x.core));
-    if(rc != 0) { c.violation("oracle:C20:setup-rejected:opn2_switchEmulator", vfmt("%d -> %d", x.core, rc)); return false; }
-    API("opn2_setChipType", opn2_setChipType(I.dev, x.fam));
-    API("opn2_setRunAtPcmRate", rc = opn2_setRunAtPcmRate(I.dev, x.pcm));
-    if(rc != 0) { c.violation("oracle:C20:setup-rejected:opn2_setRunAtPcmRate", vfmt("%d -> %d", x.pcm, rc)); return false; }
+    // the four configuration calls in a per-case order (each of them re-creates the chips: which one comes last must not matter)
+    int order[4] = {0, 1, 2, 3};
+    { uint32_t q = (uint32_t)(c.k / 7 + c.k) % 24; for(int i = 3; i > 0; i--) { int j = (int)(q % (uint32_t)(i + 1)); q /= (uint32_t)(i + 1); std::swap(order[i], order[j]); } }
+    for(int oi = 0; oi < 4; oi++)
+        switch(order[oi])
+        {
+        case 0: API("opn2_setNumChips", rc = opn2_setNumChips(I.dev, x.chips));
+                if(rc != 0) { c.violation("oracle:C20:setup-rejected:opn2_setNumChips", vfmt("%d -> %d", x.chips, rc)); return false; } break;
+        case 1: API("opn2_switchEmulator", rc = opn2_switchEmulator(I.dev, x.core));
+                if(rc != 0) { c.violation("oracle:C20:setup-rejected:opn2_switchEmulator", vfmt("%d -> %d", x.core, rc)); return false; } break;
+        case 2: API("opn2_setChipType", opn2_setChipType(I.dev, x.fam)); break;
+        default: API("opn2_setRunAtPcmRate", rc = opn2_setRunAtPcmRate(I.dev, x.pcm));
+                if(rc != 0) { c.violation("oracle:C20:setup-rejected:opn2_setRunAtPcmRate", vfmt("%d -> %d", x.pcm, rc)); return false; } break;
+        }
+    cover(vfmt("setup-order-last-%d", order[3]));
     if(!write_bank(I)) return false;
     int fam = -1, nch = 0;
     API("opn2_getChipType", fam = opn2_getChipType(I.dev));
